@@ -80,6 +80,12 @@ func knownMinLen(v ssa.Value, fs []facts.Fact) int64 {
 				return hi - lo
 			}
 		}
+		// s[:K] (what make([]T, K) with a constant K compiles to: a slice of a fresh array)
+		if x.Low == nil && x.High != nil {
+			if hi, ok := constInt(x.High); ok && hi >= 0 {
+				return hi
+			}
+		}
 	case *ssa.Const:
 		if x.Value != nil && x.Value.Kind().String() == "String" {
 			return int64(len(x.Value.ExactString())) - 2
